@@ -239,64 +239,108 @@ Definition payload_view (s : slice) (f : frame) : res slice :=
   o <- frame_payload s f ;; Ok (match o with Some x => x | None => nil_slice end).
 
 (* ---------------------------------------------------------------- *)
-(* The UDP port switch (layer_frame.go:318-357): first matching case in source order;
-   [None] is the default branch (PayloadUDP, payload offset not advanced). *)
-Definition udp_class (sp dp : N) : option N :=
-  if (sp =? 443) || (dp =? 443) then Some PayloadSSL
-  else if (dp =? 67) || (dp =? 68) then Some PayloadDHCP4
-  else if (dp =? 546) || (dp =? 547) then Some PayloadDHCP6
-  else if (sp =? 53) || (dp =? 53) then Some PayloadDNS
-  else if (sp =? 5353) || (dp =? 5353) then Some PayloadMDNS
-  else if (sp =? 5355) || (dp =? 5355) then Some PayloadLLMNR
-  else if (sp =? 123) || (dp =? 123) then Some PayloadNTP
-  else if (sp =? 1900) || (dp =? 1900) then Some PayloadSSDP
-  else if (sp =? 3702) || (dp =? 3702) then Some PayloadWSDP
-  else if (dp =? 137) || (dp =? 138) then Some PayloadNBNS
-  else if (dp =? 32412) || (dp =? 32414) then Some PayloadPlex
-  else if (sp =? 10001) || (dp =? 10001) then Some PayloadUbiquiti
-  else None.
+(* Classification tables of Session.Parse, as explicit lists in SOURCE ORDER.  The harness (harness/cmd/c02)
+   extracts the same tables from layer_frame.go with go/ast on every run and compares them row by row with these
+   lists (dispatch kind "table"), so an edit or a reordering of a switch in Go is a correspondence failure on the
+   table itself.  The model's classification functions below are DEFINED from the lists. *)
 
-(* switch proto (layer_frame.go:307-412) *)
+Fixpoint lookup_row (k : N) (t : list (N * N)) : option N :=
+  match t with
+  | [] => None
+  | (k', v) :: r => if k =? k' then Some v else lookup_row k r
+  end.
+
+(* switch frame.ether.EtherType() (layer_frame.go:178-305): case constant -> PayloadID set by the case *)
+Definition ethertype_rows : list (N * N) :=
+  [ (2048, PayloadIP4)              (* syscall.ETH_P_IP *)
+  ; (34525, PayloadIP6)             (* syscall.ETH_P_IPV6 *)
+  ; (2054, PayloadARP)              (* syscall.ETH_P_ARP *)
+  ; (34824, PayloadEthernetPause)   (* 0x8808 *)
+  ; (34969, PayloadRRCP)            (* 0x8899 *)
+  ; (35020, PayloadLLDP)            (* 0x88cc *)
+  ; (35085, Payload802_11r)         (* 0x890d *)
+  ; (35130, PayloadIEEE1905)        (* 0x893a *)
+  ; (26992, PayloadSonos)           (* 0x6970 *)
+  ; (34826, Payload880a)            (* 0x880a *)
+  ].
+
+(* switch proto (layer_frame.go:307-412): case constant -> PayloadID set by the case *)
+Definition ipproto_rows : list (N * N) :=
+  [ (17, PayloadUDP) ; (6, PayloadTCP) ; (1, PayloadICMP4) ; (58, PayloadICMP6) ; (2, PayloadIGMP) ].
+
+(* The UDP port switch (layer_frame.go:318-357), one row per case in source order:
+   SrcOrDst [p]: frame.SrcAddr.Port == p || frame.DstAddr.Port == p;  DstOnly [p; q]: frame.DstAddr.Port == p || ... == q *)
+Inductive port_side := SrcOrDst | DstOnly.
+Definition udp_port_rows : list (port_side * list N * N) :=
+  [ (SrcOrDst, [443], PayloadSSL)
+  ; (DstOnly, [67; 68], PayloadDHCP4)
+  ; (DstOnly, [546; 547], PayloadDHCP6)
+  ; (SrcOrDst, [53], PayloadDNS)
+  ; (SrcOrDst, [5353], PayloadMDNS)
+  ; (SrcOrDst, [5355], PayloadLLMNR)
+  ; (SrcOrDst, [123], PayloadNTP)
+  ; (SrcOrDst, [1900], PayloadSSDP)
+  ; (SrcOrDst, [3702], PayloadWSDP)
+  ; (DstOnly, [137; 138], PayloadNBNS)
+  ; (DstOnly, [32412; 32414], PayloadPlex)
+  ; (SrcOrDst, [10001], PayloadUbiquiti)
+  ].
+
+Definition row_matches (side : port_side) (ports : list N) (sp dp : N) : bool :=
+  existsb (fun p => match side with SrcOrDst => (sp =? p) || (dp =? p) | DstOnly => dp =? p end) ports.
+
+Fixpoint first_row (sp dp : N) (t : list (port_side * list N * N)) : option N :=
+  match t with
+  | [] => None
+  | (side, ports, id) :: r => if row_matches side ports sp dp then Some id else first_row sp dp r
+  end.
+
+(* first matching case in source order; [None] is the default branch (PayloadUDP, payload offset not advanced) *)
+Definition udp_class (sp dp : N) : option N := first_row sp dp udp_port_rows.
+
+(* the cases of switch proto (layer_frame.go:307-412) *)
+Definition parse_udp (s : slice) (f : frame) : res frame :=
+  let f := set_id f PayloadUDP in
+  p <- payload_view s f ;;
+  _ <- udp_is_valid p ;;
+  sp <- src_port p ;;
+  dp <- dst_port p ;;
+  let f := set_ports (set_offU f (f_offP f)) sp dp in
+  match udp_class sp dp with
+  | None => Ok f
+  | Some id => Ok (set_offP (set_id f id) (f_offP f + 8))
+  end.
+
+Definition parse_tcp (fx : fixes) (s : slice) (f : frame) : res frame :=
+  let f := set_id f PayloadTCP in
+  p <- payload_view s f ;;
+  _ <- tcp_is_valid fx p ;;
+  sp <- src_port p ;;
+  dp <- dst_port p ;;
+  Ok (set_ports (set_offT f (f_offP f)) sp dp).
+
+(* IPPROTO_ICMP (echo reply type 0) and IPPROTO_ICMPV6 (echo reply type 129) *)
+Definition parse_icmp (s : slice) (f : frame) (reply : N) (id : N) : res frame :=
+  p <- payload_view s f ;;
+  _ <- icmp_is_valid p ;;
+  t <- icmp_type p ;;
+  f <- (if t =? reply then
+          _ <- icmp_is_valid p ;;                     (* ICMPEcho.IsValid: same test *)
+          e <- echo_id p ;; Ok (set_echo f (Some e))
+        else Ok f) ;;
+  Ok (set_id f id).
+
+(* switch proto: the case is selected through [ipproto_rows] *)
 Definition parse_proto (fx : fixes) (s : slice) (f : frame) (proto : N) : res frame :=
-  if proto =? 17 then                                   (* IPPROTO_UDP *)
-    let f := set_id f PayloadUDP in
-    p <- payload_view s f ;;
-    _ <- udp_is_valid p ;;
-    sp <- src_port p ;;
-    dp <- dst_port p ;;
-    let f := set_ports (set_offU f (f_offP f)) sp dp in
-    match udp_class sp dp with
-    | None => Ok f
-    | Some id => Ok (set_offP (set_id f id) (f_offP f + 8))
-    end
-  else if proto =? 6 then                               (* IPPROTO_TCP *)
-    let f := set_id f PayloadTCP in
-    p <- payload_view s f ;;
-    _ <- tcp_is_valid fx p ;;
-    sp <- src_port p ;;
-    dp <- dst_port p ;;
-    Ok (set_ports (set_offT f (f_offP f)) sp dp)
-  else if proto =? 1 then                               (* IPPROTO_ICMP *)
-    p <- payload_view s f ;;
-    _ <- icmp_is_valid p ;;
-    t <- icmp_type p ;;
-    f <- (if t =? 0 then                                (* ICMP4TypeEchoReply *)
-            _ <- icmp_is_valid p ;;                     (* ICMPEcho.IsValid: same test *)
-            id <- echo_id p ;; Ok (set_echo f (Some id))
-          else Ok f) ;;
-    Ok (set_id f PayloadICMP4)
-  else if proto =? 58 then                              (* IPPROTO_ICMPV6 *)
-    p <- payload_view s f ;;
-    _ <- icmp_is_valid p ;;
-    t <- icmp_type p ;;
-    f <- (if t =? 129 then                              (* ICMP6TypeEchoReply *)
-            _ <- icmp_is_valid p ;;
-            id <- echo_id p ;; Ok (set_echo f (Some id))
-          else Ok f) ;;
-    Ok (set_id f PayloadICMP6)
-  else if proto =? 2 then                               (* IPPROTO_IGMP *)
-    Ok (set_id f PayloadIGMP)
-  else Ok f.
+  match lookup_row proto ipproto_rows with
+  | Some id =>
+      if id =? PayloadUDP then parse_udp s f
+      else if id =? PayloadTCP then parse_tcp fx s f
+      else if id =? PayloadICMP4 then parse_icmp s f 0 PayloadICMP4
+      else if id =? PayloadICMP6 then parse_icmp s f 129 PayloadICMP6
+      else Ok (set_id f id)                            (* IPPROTO_IGMP: PayloadID only *)
+  | None => Ok f
+  end.
 
 (* case ETH_P_IP (layer_frame.go:179-201) *)
 Definition parse_ip4 (c : cfg) (s : slice) (f : frame) : res frame :=
@@ -359,14 +403,11 @@ Definition parse (c : cfg) (s : slice) : res frame :=
   if negb (is_unicast_mac smac) then Ok f else
   et <- ether_type s ;;
   if et <? 1536 then Ok (set_id f Payload8023) else
-  if et =? 2048 then parse_ip4 c s f                      (* ETH_P_IP *)
-  else if et =? 34525 then parse_ip6 c s f                (* ETH_P_IPV6 0x86dd *)
-  else if et =? 2054 then parse_arp c s f                 (* ETH_P_ARP 0x0806 *)
-  else if et =? 34824 then parse_leaf s f PayloadEthernetPause   (* 0x8808 *)
-  else if et =? 34969 then parse_leaf s f PayloadRRCP            (* 0x8899 *)
-  else if et =? 35020 then parse_leaf s f PayloadLLDP            (* 0x88cc *)
-  else if et =? 35085 then parse_leaf s f Payload802_11r         (* 0x890d *)
-  else if et =? 35130 then parse_leaf s f PayloadIEEE1905        (* 0x893a *)
-  else if et =? 26992 then parse_leaf s f PayloadSonos           (* 0x6970 *)
-  else if et =? 34826 then parse_leaf s f Payload880a            (* 0x880a *)
-  else Ok f.
+  match lookup_row et ethertype_rows with               (* switch frame.ether.EtherType(), through [ethertype_rows] *)
+  | Some id =>
+      if id =? PayloadIP4 then parse_ip4 c s f
+      else if id =? PayloadIP6 then parse_ip6 c s f
+      else if id =? PayloadARP then parse_arp c s f
+      else parse_leaf s f id                             (* 0x8808, 0x8899, 0x88cc, 0x890d, 0x893a, 0x6970, 0x880a *)
+  | None => Ok f
+  end.
